@@ -585,10 +585,11 @@ theorem serve_wiring_pinned :
     GenServe.wiring_RegisterLegacyServer = ("", ["intercept(s.Provider().IssuerFromRequest)"]) ∧
     GenServe.src_intercept = "{ issuerInterceptor := NewIssuerInterceptor(i) return func(handler http.Handler) http.Handler { for i := len(interceptors) - 1; i >= 0; i-- { handler = interceptors[i](handler) } return issuerInterceptor.Handler(handler) } }" ∧
     GenServe.src_NewIssuerInterceptor = "{ return &IssuerInterceptor{ issuerFromRequest: issuerFromRequest, } }" ∧
-    GenServe.src_IssuerFromHost = "{ return issuerFromForwardedOrHost(path, new(issuerConfig)) }" ∧
-    GenServe.src_IssuerFromForwardedOrHost = "{ c := &issuerConfig{ headers: []string{http.CanonicalHeaderKey(\"forwarded\")}, } for _, opt := range opts { opt(c) } return issuerFromForwardedOrHost(path, c) }" ∧
     GenServe.src_Provider_IssuerFromRequest = "{ return o.issuer(r) }" := by
-  exact ⟨rfl, rfl, rfl, rfl, rfl, rfl, rfl, rfl⟩
+  -- (round 3) the text pins of `IssuerFromHost` / `IssuerFromForwardedOrHost` are gone: both are REGENERATED now
+  -- (Generated/ProviderC19.lean) and `C19.issuerFn_regenerated` / `issuerFromForwardedOrHost_opts` (Proofs/C19Construct.lean) prove that
+  -- the hand-written `Disco.issuerFn` is what they build.
+  exact ⟨rfl, rfl, rfl, rfl, rfl, rfl⟩
 
 /-! ### the RP's discovery client -/
 
